@@ -6,7 +6,6 @@ use std::collections::BTreeMap;
 use dfir_lang::graph::{DfirGraph, GraphNode, HandoffKind, PortIndexValue};
 use quote::ToTokens;
 use slotmap::Key;
-use vcommon::{Value, json};
 
 pub type Id = u64;
 
@@ -97,7 +96,7 @@ pub fn abstract_graph(g: &DfirGraph) -> Abs {
             GraphNode::Operator(op) => Kind::Op {
                 name: op.name_string(),
                 tokens: op.to_token_stream().to_string(),
-                raw_args: op.args_raw.to_string(),
+                raw_args: op.args_raw.to_string().split_whitespace().collect::<String>(),
                 ref_tokens: op.singletons_referenced.iter().map(|r| r.to_token_stream().to_string()).collect(),
             },
             GraphNode::Handoff { kind, .. } => Kind::Hoff(match kind {
@@ -183,13 +182,5 @@ impl Abs {
     }
     pub fn nested(&self, l: Option<Id>) -> bool {
         l.and_then(|l| self.loops.get(&l)).is_some_and(|x| x.parent.is_some())
-    }
-    pub fn to_json(&self) -> Value {
-        json!({
-            "nodes": self.nodes.iter().map(|(id, n)| json!({"id": id, "kind": format!("{:?}", n.kind), "loop": n.loop_id, "sg": n.sg, "delay": n.delay, "refs": n.refs.iter().map(|r| json!([r.target, r.is_mut, r.group])).collect::<Vec<_>>()})).collect::<Vec<_>>(),
-            "edges": self.edges.iter().map(|(_, e)| json!([e.src, e.sp, e.dst, e.dp])).collect::<Vec<_>>(),
-            "order": self.order,
-            "subgraphs": self.subgraphs,
-        })
     }
 }
